@@ -205,9 +205,46 @@ def r1(run, ctx):
 
 
 # -- R2 -----------------------------------------------------------------------
-def _reply_weight(ctx, f, node, deferred_ok=True):
+def _deferred_flags(ctx, f):
+    """The send_resp arguments of the completion callbacks registered in f:
+    [(add_done_callback node, flag expression)] with locals expanded."""
+    from sa.dataflow import reaching_defs
+    rd = reaching_defs(ctx, f)
+    out = []
+    for node in ctx.live_nodes(f):
+        for c in node.calls():
+            if astq.call_last(c) == 'add_done_callback' and c.args:
+                for alt in rd.expand(node, c.args[0]):
+                    cb = alt.expr
+                    if isinstance(cb, ast.Call) and dotted(cb.func) in ('functools.partial',
+                                                                        'partial') \
+                            and cb.args and norm_text(cb.args[0]).endswith(
+                                '_dispatch_callback_future') and len(cb.args) >= 7:
+                        out.append((node, cb.args[6], alt))
+    return out
+
+
+def _flag_texts(ctx, f):
+    """names / expressions whose truth decides a non-constant send_resp flag"""
+    from sa.normalize import bool_ctx
+    import copy
+    texts = set()
+    for c in [c for n in ctx.live_nodes(f) for c in n.calls()]:
+        if dotted(c.func) in ('functools.partial', 'partial') and len(c.args) >= 7 and \
+                norm_text(c.args[0]).endswith('_dispatch_callback_future') and \
+                not isinstance(c.args[6], ast.Constant):
+            texts.add(norm_text(c.args[6]))
+    for node, flag, alt in _deferred_flags(ctx, f):
+        if not isinstance(flag, ast.Constant):
+            texts.add(norm_text(bool_ctx(copy.deepcopy(flag))))
+            texts.add(norm_text(flag))
+    return texts
+
+
+def _reply_weight(ctx, f, node, deferred_ok=True, flagval=None):
     """number of logical replies issued at this node (reply call = 1, a
-    registered completion callback with send_resp=True = 1)."""
+    registered completion callback with send_resp=True = 1; a non-constant
+    send_resp counts when the case under analysis (flagval) makes it true)."""
     w = 0
     for s in ctx.sites(f):
         if s.node is not node or s.kind != 'call':
@@ -217,24 +254,18 @@ def _reply_weight(ctx, f, node, deferred_ok=True):
         if any(t.key == C + 'dispatch' for t in s.targets):
             w += 1
     # a completion callback with send_resp=True counts at its registration
-    for c in node.calls():
-        if astq.call_last(c) == 'add_done_callback' and c.args:
-            cb = c.args[0]
-            if isinstance(cb, ast.Name):
-                # nearest assignment `cb = partial(...)` that reaches here lexically
-                cands = [a for a in walk_local(f.node) if isinstance(a, ast.Assign) and
-                         any(isinstance(t, ast.Name) and t.id == cb.id for t in a.targets)
-                         and a.lineno <= c.lineno]
-                cands.sort(key=lambda a: a.lineno)
-                cb = cands[-1].value if cands else None
-            if isinstance(cb, ast.Call) and dotted(cb.func) in ('functools.partial', 'partial') \
-                    and cb.args and norm_text(cb.args[0]).endswith('_dispatch_callback_future'):
-                if len(cb.args) >= 7 and astq.const_value(cb.args[6], None) is True:
+    for n2, flag, alt in _deferred_flags(ctx, f):
+        if n2 is node:
+            if isinstance(flag, ast.Constant):
+                if flag.value is True:
                     w += 1
+            elif flagval is True:
+                w += 1
+            break
     return w
 
 
-def _count_flow(ctx, f, assume=None):
+def _count_flow(ctx, f, assume=None, flagval=None):
     """-> dict node_id -> set of reply counts (capped at 2) on entry."""
     cfg = ctx.cfg(f)
     ex = infeasible_edges(cfg, assume) if assume else set()
@@ -243,7 +274,7 @@ def _count_flow(ctx, f, assume=None):
     while todo:
         cur = todo.pop()
         node = cfg.nodes[cur]
-        w = _reply_weight(ctx, f, node)
+        w = _reply_weight(ctx, f, node, flagval=flagval)
         for nxt, lab in cfg.succ[cur]:
             if (cur, lab) in ex:
                 continue
@@ -271,8 +302,17 @@ def r2(run, ctx):
     ]
     for key, assume, want, label in cases:
         f = ctx.fn(key)
-        cfg, state = _count_flow(ctx, f, assume)
-        got = state.get(cfg.exit.id, set())
+        flags = _flag_texts(ctx, f) if assume is None else set()
+        if flags:
+            # the send_resp flag is a run-time value: one analysis per value
+            got = set()
+            for val in (True, False):
+                cfg, state = _count_flow(ctx, f, lambda e, val=val: (
+                    val if norm_text(e) in flags else None), flagval=val)
+                got |= state.get(cfg.exit.id, set())
+        else:
+            cfg, state = _count_flow(ctx, f, assume)
+            got = state.get(cfg.exit.id, set())
         ok = got == want
         wit = None
         if not ok:
@@ -651,10 +691,17 @@ def r8(run, ctx):
             run.check('R9', bool(polls), 'the timeout bounds the receive', f, f.node)
 
             def no_events(e):
-                if isinstance(e, ast.Compare) and 'len(events)' in norm_text(e.left) and \
-                        astq.const_value(e.comparators[0], None) == 0 and \
-                        isinstance(e.ops[0], ast.Eq):
-                    return True
+                """truth of e when the poll returned nothing"""
+                if isinstance(e, ast.Compare) and len(e.ops) == 1 and \
+                        norm_text(e.left) == 'len(events)':
+                    k = astq.const_value(e.comparators[0], None)
+                    op = type(e.ops[0])
+                    if (op, k) in ((ast.Eq, 0), (ast.LtE, 0), (ast.Lt, 1)):
+                        return True
+                    if (op, k) in ((ast.Gt, 0), (ast.NotEq, 0), (ast.GtE, 1)):
+                        return False
+                if isinstance(e, ast.Name) and e.id == 'events':
+                    return False
                 return None
             loops = [t for t in cfg.nodes if t.kind == 'test' and isinstance(t.stmt, ast.While)]
             raises = [n for n in ctx.live_nodes(f) if n.kind == 'stmt' and
